@@ -213,6 +213,8 @@ scpi_bool_t SCPI_Parse(scpi_t * context, char * data, int len) {
             SCPI_ErrorPush(context, SCPI_ERROR_INVALID_CHARACTER);
             result = FALSE;
         } else if (state->programHeader.len > 0) {
+            /* header as written, the bytes in front of it are overwritten by the composed path */
+            char * header = state->programHeader.ptr;
 
             composeCompoundCommand(&cmd_prev, &state->programHeader);
 
@@ -231,7 +233,7 @@ scpi_bool_t SCPI_Parse(scpi_t * context, char * data, int len) {
                 /* calculate length of errorenous header and trim \r\n */
                 size_t r2 = r;
                 while (r2 > 0 && (data[r2 - 1] == '\r' || data[r2 - 1] == '\n')) r2--;
-                SCPI_ErrorPushEx(context, SCPI_ERROR_UNDEFINED_HEADER, data, r2);
+                SCPI_ErrorPushEx(context, SCPI_ERROR_UNDEFINED_HEADER, header, r2 - (header - data));
                 result = FALSE;
             }
             /* composed header is the reference for the next unit even if it was not found,
